@@ -797,3 +797,16 @@ pub fn gen_scale_doc(t: &mut Tape) -> (String, &'static str) {
         }
     }
 }
+
+/// numbers spelled unusually: Rust's float / integer parsers accept some of these and reject others; the
+/// reference models follow the same rules (refmodel::num), the legacy limits apply afterwards
+pub const ODD_NUMBERS: &[&str] = &[
+    "1E2", "1e+2", "1e-2", "5.", ".5", "+.5", "-.5", "00012", "-007", "+0", "-0", "1_000", "0x10", "1e", "e5", "1e5", "12e0", "\u{ff11}\u{ff12}", "\u{661}",
+    "Infinity", "infinity", "-Infinity", "INF", "nan", "NAN", "-nan", "1f", "1d", "1.5e3", "2.5E-1", "1e308", "1e309", "-1e309", "4e-324", "1e-400", "0.1e1", "100.", "100.0000000000001",
+    "2147483647", "2147483648", "-2147483648", "-2147483649", "2147483647.5", "2147483520", "2147483583", "16777217", "9007199254740993", "99999999999999999999", "0.30000000000000004",
+    "1 2", "1\t", "\t1", "--1", "+-1", "1+", "1-", "1.2.3", "1,", "", " ",
+];
+
+pub fn odd_number(t: &mut Tape) -> &'static str {
+    *t.pick(ODD_NUMBERS)
+}
